@@ -65,9 +65,18 @@ func runReplay(t *testing.T, c *Collector, path string) {
 	}
 	raw, _ := json.Marshal(doc.Violation.Replay)
 	var spec replaySpec
-	if err := json.Unmarshal(raw, &spec); err != nil {
-		c.res.InfraError = err.Error()
-		return
+	var eng struct {
+		Engine string `json:"engine"`
+	}
+	json.Unmarshal(raw, &eng)
+	spec.Engine = eng.Engine
+	switch eng.Engine {
+	case "S", "X", "A":
+		// these share the store-level operation type
+		if err := json.Unmarshal(raw, &spec); err != nil {
+			c.res.InfraError = err.Error()
+			return
+		}
 	}
 	prop := doc.Property
 	switch spec.Engine {
@@ -98,10 +107,95 @@ func runReplay(t *testing.T, c *Collector, path string) {
 			sc.Recover = recoverC09
 		}
 		if prop == "C10" {
-			sc.Recover = recoverC10
+			// the scenario carries the legacy store it starts from
+			sc = nil
+			for _, tier := range []string{"quick", "thorough"} {
+				for _, x := range c10CrashScenarios(tier) {
+					if x.Name == spec.Scenario && x.Cfg == spec.Config {
+						sc = x
+					}
+				}
+			}
+			if sc == nil {
+				c.res.InfraError = "no scenario for replay"
+				return
+			}
 		}
 		sc.only = &spec
 		sc.crashHistory(spec.Ops, c, map[[40]byte]struct{}{})
+	case "B-index":
+		var r struct {
+			Alphabet []byte `json:"alphabet"`
+			N        int    `json:"n"`
+			Bits     uint8  `json:"bits"`
+			FileSz   uint32 `json:"file_size"`
+			Ops      []ixOp `json:"ops"`
+		}
+		if err := json.Unmarshal(raw, &r); err != nil || r.N == 0 {
+			c.res.InfraError = "replay file has no universe description"
+			return
+		}
+		keys := ixUniverse(r.Alphabet, r.N, r.Bits)
+		_, canon, obs, v := ixReplay(keys, r.Bits, r.FileSz, r.Ops)
+		c.res.Evaluations++
+		fmt.Printf("history: %s\nstate: %s\nobservations: %s\n", ixOpsString(r.Ops), canon, obs)
+		if v != nil {
+			v.Property = prop
+			v.History = ixOpsString(r.Ops)
+			v.Replay = doc.Violation.Replay
+			c.violation(v, 0)
+		}
+	case "B-filecache":
+		var r struct {
+			Ops []fcOp `json:"ops"`
+		}
+		json.Unmarshal(raw, &r)
+		_, v := fcReplay(r.Ops)
+		c.res.Evaluations++
+		if v != nil {
+			v.Property = prop
+			v.Replay = doc.Violation.Replay
+			c.violation(v, 0)
+		}
+	case "S-blockstore":
+		var r struct {
+			Bits uint8  `json:"bits"`
+			Fsz  uint32 `json:"file_size"`
+			Ops  []bsOp `json:"ops"`
+		}
+		json.Unmarshal(raw, &r)
+		var v *Violation
+		func() {
+			defer func() {
+				if rr := recover(); rr != nil {
+					v = viol("panic", "panic: %v", rr)
+				}
+			}()
+			w, err := newBsWorld(r.Bits, r.Fsz)
+			if err != nil {
+				v = viol("open-error", "open: %v", err)
+				return
+			}
+			defer func() {
+				defer func() { recover() }()
+				if w.bs != nil {
+					w.bs.Close()
+				}
+			}()
+			for _, o := range r.Ops {
+				fmt.Printf("  %s\n", o.str(w.blocks))
+				if v = w.step(o, r.Fsz); v != nil {
+					return
+				}
+			}
+			v = w.final()
+		}()
+		c.res.Evaluations++
+		if v != nil {
+			v.Property = prop
+			v.Replay = doc.Violation.Replay
+			c.violation(v, 0)
+		}
 	case "S-fault":
 		var raw2 struct {
 			Case string `json:"case"`
